@@ -12,7 +12,8 @@ BOUNDS = ("carriers {text attribute, element content}; shapes {rect, circle, ell
           "default / d-text-inside / d-text-outside; horizontal and d-text-vertical; 1-3 lines; symbolic shape geometry (k/2 in [-128,128], sizes k/2 in [0,64]), text-offset (k/2 in [-8,8]), "
           "text-dx/dy/dxy (k/2 in [-16,16]), text-lsp (k/4 in [0.5,2]); each of the 17 text presentation attributes and text-style on rect / line / text carriers, with and without d-text-vertical; "
           "<text> elements positioned at a named location, an edge location or a |h|H|v|V direction of another element (implicit text-loc against the explicit spelling)")
-ASSUMPTIONS = ["anchor = text-loc location of the shape's box (default c); offset o = text-offset (default 1): inside top => y+o, bottom => y-o, left => x+o, right => x-o; outside (default for line, point, "
+ASSUMPTIONS = ["a specific text-dx / text-dy takes precedence over the corresponding component of text-dxy; a line terminator ends a line (no extra line after the last one), blank lines count as lines and may be rendered as a zero-width space",
+               "anchor = text-loc location of the shape's box (default c); offset o = text-offset (default 1): inside top => y+o, bottom => y-o, left => x+o, right => x-o; outside (default for line, point, "
                "text; or d-text-outside): signs reversed; then + text-dx/dy (property text)",
                "alignment class: the text extends away from the edge it is anchored to: inside-top/outside-bottom => d-text-top, inside-bottom/outside-top => d-text-bottom, likewise left/right; "
                "-vertical variants with d-text-vertical; d-text always",
@@ -69,6 +70,19 @@ def templates(tier, seed):
         for loc in ("c", "tl", "b"):
             for n in (1, 2):
                 tds.append(dict(fam="content", kind=k, loc=loc, mode="default", off="sym", dxy="none", vert=False, lines=n, carrier="content"))
+    for k in ("rect", "line", "text", "circle"):
+        for loc in ("c", "tl", "b", "r"):
+            for dxy in ("dxy+dy", "dxy+dx", "dxy+dx+dy"):
+                tds.append(dict(fam="place", kind=k, loc=loc, mode="default", off="default", dxy=dxy, vert=False, lines=1, carrier="attr"))
+            # line spacing given although the text has a single line: still a text attribute
+            tds.append(dict(fam="place", kind=k, loc=loc, mode="default", off="default", dxy="none", vert=False, lines=1, carrier="attr", lsp="sym"))
+            tds.append(dict(fam="place", kind=k, loc=loc, mode="default", off="default", dxy="none", vert=False, lines=1, carrier="attr", tstyle=True))
+    # blank lines are lines: leading, trailing (beyond the final line terminator) and in the middle
+    for k in ("rect", "line", "text"):
+        for loc in ("c", "t", "b", "l"):
+            for form in ("trail2", "lead", "mid", "trail3", "only-nl", "crlf"):
+                for carrier in ("attr", "content"):
+                    tds.append(dict(fam="blanklines", kind=k, loc=loc, mode="default", off="default", dxy="none", vert=False, lines=0, carrier=carrier, form=form))
     # the carrier has to wait for a later element (it is processed on a retry): same placement
     for k in kinds:
         for loc in ("tl", "r", "b:o", "c"):
@@ -208,6 +222,18 @@ def build(td, wrong=False):
         vars_ += [(3, *D), (-2, *D)]
         extra += f' text-dxy="[[{kd}]] [[{kd + 1}]]"'
         dx, dy = f"v{kd}", f"v{kd + 1}"
+    elif td["dxy"].startswith("dxy+"):
+        # a specific text-dx / text-dy takes precedence over the corresponding component of text-dxy
+        kd = len(vars_)
+        vars_ += [(3, *D), (-2, *D), (5, *D), (-6, *D)]
+        extra += f' text-dxy="[[{kd}]] [[{kd + 1}]]"'
+        dx, dy = f"v{kd}", f"v{kd + 1}"
+        if "+dx" in td["dxy"]:
+            extra += f' text-dx="[[{kd + 2}]]"'
+            dx = f"v{kd + 2}"
+        if "+dy" in td["dxy"]:
+            extra += f' text-dy="[[{kd + 3}]]"'
+            dy = f"v{kd + 3}"
     lsp = num(Fraction(105, 100))
     lsp_sym = False
     if td.get("lsp") == "sym":
@@ -218,11 +244,26 @@ def build(td, wrong=False):
         lsp_sym = True
     n = td["lines"]
     words = ["one", "two", "three"][:n]
+    if td.get("tstyle"):
+        extra += ' text-style="fill:blue"'
+    if td["fam"] == "blanklines":
+        raw = {"trail2": "one\n\n", "lead": "\none", "mid": "one\n\ntwo", "trail3": "one\ntwo\n\n\n", "only-nl": "one\n", "crlf": "one\r\ntwo"}[td["form"]]
+        # a line terminator ends a line; it does not start another one after the last
+        words = raw.replace("\r\n", "\n").split("\n")
+        if raw.endswith("\n"):
+            words = words[:-1]
+        n = len(words)
     tail = ""
     if td.get("held"):
         extra += ' data-w="{{#zz~w}}"'
         tail = '<rect id="zz" xy="300 300" wh="2"/>'
-    if td["carrier"] == "attr":
+    if td["fam"] == "blanklines":
+        if td["carrier"] == "attr":
+            txt = raw.replace("\r", "&#13;").replace("\n", "\\n") if td["form"] != "crlf" else "one\\ntwo"
+            doc = "<svg>" + sm.replace("{T}", f'{extra} text="{txt}"/>') + "</svg>"
+        else:
+            doc = "<svg>" + sm.replace("{T}", f"{extra}>" + raw + f"</{kind}>") + "</svg>"
+    elif td["carrier"] == "attr":
         txt = "\\n".join(words)
         doc = "<svg>" + sm.replace("{T}", f'{extra} text="{txt}"/>') + tail + "</svg>"
     else:
@@ -293,6 +334,8 @@ def build(td, wrong=False):
         obls.append(Obl("alignment-classes", PASS if got_cmp == want else FAIL, ground=True, note=f"{sorted(got_cmp)} expected {sorted(want)}"))
         # lines
         spans = [c for c in o.children(t) if o.tag(c) == "tspan"]
+        if td.get("tstyle"):
+            obls.append(Obl("text-style-becomes-style-of-the-text", PASS if t.get("style") == "fill:blue" else FAIL, ground=True, note=str(t.get("style"))))
         if n == 1:
             obls.append(Obl("single-line-no-tspans", PASS if not spans and (t.text or "").strip() == words[0] else FAIL, ground=True, note=repr(t.text)))
             return obls
@@ -300,7 +343,8 @@ def build(td, wrong=False):
             obls.append(Obl("one-tspan-per-line", FAIL, ground=True, note=f"{len(spans)} tspans for {n} lines"))
             return obls
         order = list(reversed(words)) if vert else words
-        obls.append(Obl("tspan-text-in-order", PASS if [(s.text or "") for s in spans] == order else FAIL, ground=True, note=str([(s.text or "") for s in spans])))
+        got_lines = [(s.text or "").replace("\u200b", "") for s in spans]
+        obls.append(Obl("tspan-text-in-order", PASS if got_lines == order else FAIL, ground=True, note=str(got_lines)))
         # first-line offset rule
         if not vert:
             grow = "down" if ((not outside and top) or (outside and bottom)) else "up" if ((not outside and bottom) or (outside and top)) else "mid"
